@@ -102,7 +102,10 @@ func c18Args(env *core.Env, c *c18Case) core.Verdict {
 		ok, file, id, k := c18Parse(arg)
 		content, exists := tree["regex-assembly/"+file]
 		u := cli(env, root, nil, "regex", "update", arg)
-		if u.Class() == sut.ClassFault || u.Class() == sut.ClassTimeout {
+		if u.Class() == sut.ClassTimeout {
+			return core.Incon("watchdog hit, not judged: %s", describe(u))
+		}
+		if u.Class() == sut.ClassFault {
 			return core.Viol("crash", "update %q crashed: %s", arg, describe(u))
 		}
 		got, _ := sut.Read(root, rulesPath)
@@ -183,7 +186,10 @@ func c18Format(env *core.Env, c *c18Case) core.Verdict {
 			exists = false
 		}
 		f := cli(env, root, nil, "regex", "format", arg)
-		if f.Class() == sut.ClassFault || f.Class() == sut.ClassTimeout {
+		if f.Class() == sut.ClassTimeout {
+			return core.Incon("watchdog hit, not judged: %s", describe(f))
+		}
+		if f.Class() == sut.ClassFault {
 			return core.Viol("crash", "format %q crashed: %s", arg, describe(f))
 		}
 		d := sut.Diff(before, sut.Snap(root))
@@ -269,7 +275,10 @@ func c18Root(env *core.Env, c *c18Case) core.Verdict {
 	v := core.Verdict{Status: core.Held, Nontrivial: len(roots) >= 2, Counts: map[string]int{}, Features: []string{fmt.Sprintf("expect-root:%v", expect >= 0)}}
 	for _, rule := range []string{"932100", "932101"} {
 		r := cliAt(env, cwd, nil, append(append([]string{}, args...), "regex", "generate", rule)...)
-		if r.Class() == sut.ClassFault || r.Class() == sut.ClassTimeout {
+		if r.Class() == sut.ClassTimeout {
+			return core.Incon("watchdog hit, not judged: %s", describe(r))
+		}
+		if r.Class() == sut.ClassFault {
 			return core.Viol("crash", "generate with -d %q from %q crashed: %s", c.Start, c.Cwd, describe(r))
 		}
 		if expect < 0 {
@@ -323,7 +332,10 @@ func c18All(env *core.Env, c *c18Case) core.Verdict {
 	v := core.Verdict{Status: core.Held, Nontrivial: true, Counts: map[string]int{"files_over_255": len(over)}}
 	for _, cmd := range []string{"update", "compare"} {
 		r := cli(env, root, nil, "regex", cmd, "--all")
-		if r.Class() == sut.ClassFault || r.Class() == sut.ClassTimeout {
+		if r.Class() == sut.ClassTimeout {
+			return core.Incon("watchdog hit, not judged: %s", describe(r))
+		}
+		if r.Class() == sut.ClassFault {
 			return core.Viol("crash", "%s --all crashed: %s", cmd, describe(r))
 		}
 		got, _ := sut.Read(root, rulesPath)
